@@ -8,7 +8,7 @@ ROOT=$(cd "$(dirname "$0")/.." && pwd)
 export GOFLAGS=-mod=mod GOPROXY=off GOSUMDB=off GOTOOLCHAIN=local
 props_for() {
   case "$1" in
-    wal.go|state.go|options.go) echo "C05 C01 C10 C14 C13 C04 C03 C06 C20 C02 C08 C12";;
+    wal.go|state.go|options.go) echo "C05 C01 C10 C14 C13 C04 C03 C06 C20 C02 C08 C12 C11 C09 C15";;
     segment/*) echo "C05 C02 C09 C10 C11 C15 C01 C06 C13 C04";;
     fs/*) echo "C07 C13";;
     metadb/*) echo "C08 C07 C12 C05";;
